@@ -96,7 +96,10 @@ class Number(Operand):
     )
 
     def compile(self):
-        return eval(self.name.capitalize())
+        name = self.name.upper()
+        if name in ('TRUE', 'FALSE'):
+            return name == 'TRUE'
+        return float(name) if any(c in name for c in '.E') else int(name)
 
 
 _re_ref = r'(?P<ref>[[:alpha:]_\\]+[[:alnum:]\.\_\\]*)'
